@@ -653,6 +653,29 @@ def bytes_method(I_, recv, name, args, kws, st, ctx, k, node):
       out.is_str = s.is_str
       return k(st2, norm_bytes(out))
     return iter_values(I_, args[0], st, ctx, got, node)
+  if name == "format" and fully_concrete(recv) and isinstance(recv, str) and not kws:
+    # positional str.format with symbolic arguments: opaque text; too few arguments raise IndexError
+    import string
+    need = -1
+    auto = 0
+    try:
+      for lit, field, spec, conv in string.Formatter().parse(recv):
+        if field is None:
+          continue
+        head = field.split(".")[0].split("[")[0]
+        if head == "":
+          need = max(need, auto)
+          auto += 1
+        elif head.isdigit():
+          need = max(need, int(head))
+        else:
+          raise Unsupported("str.format with keyword fields")
+    except ValueError as e:
+      return I_.raise_exc(st, ctx, ValueError, str(e), node)
+    if need >= len(args):
+      return I_.raise_exc(st, ctx, IndexError, "Replacement index out of range", node)
+    axiom("str.format with symbolic arguments yields an opaque string (formatting itself does not raise)")
+    return k(st, opaque_str(st, "fmt"))
   if name in ("find", "count", "index", "isdigit", "isalpha", "split", "rsplit", "format", "zfill", "hex",
               "partition", "rpartition", "splitlines", "replace", "translate", "isspace"):
     if I_.log_depth > 0:
